@@ -13,8 +13,7 @@ static HOOK: Once = Once::new();
 /// (substring of the panic location, substring of the message) of known findings; matched
 /// against `file:line` and the message. Keep in sync with crates/pv-decode/known_local.json.
 pub const KNOWN: &[(&str, &str)] = &[
-    ("localstate/queries_v16/codec.rs", "entered unreachable code"),
-    ("base58-0.2.0/src/lib.rs", "attempt to subtract with overflow"),
+    // both former entries (queries_v16 unreachable!(), base58 0.2 subtract overflow) were repaired in /repo
 ];
 
 /// Run `f`; a panic that is not on the allow-list aborts the process (= libFuzzer crash).
